@@ -146,6 +146,34 @@ func workerMain(property string, args []string, register func(r *Registry)) int 
 			sc.Shard = true
 		}
 	}
+	// results are appended per finished scenario (JSON lines), so a later crash of this worker
+	// loses nothing; a restarted worker skips what is already recorded
+	doneSc := map[string]bool{}
+	if b, err := os.ReadFile(out); err == nil {
+		for _, l := range strings.Split(string(b), "\n") {
+			var part workerResult
+			if l != "" && json.Unmarshal([]byte(l), &part) == nil {
+				for _, st := range part.Stats {
+					doneSc[st.Name] = true
+				}
+			}
+		}
+	}
+	of, err := os.OpenFile(out, os.O_CREATE|os.O_WRONLY|os.O_APPEND, 0o644)
+	if err != nil {
+		fmt.Fprintln(os.Stderr, "worker: cannot open result file:", err)
+		return exitInternal
+	}
+	defer of.Close()
+	emit := func(wr *workerResult) bool {
+		b, _ := json.Marshal(wr)
+		if _, err := of.Write(append(b, '\n')); err != nil {
+			fmt.Fprintln(os.Stderr, "worker: cannot write result:", err)
+			return false
+		}
+		return true
+	}
+	final := &workerResult{End: true}
 	for i, sc := range r.scenarios {
 		e.scIndex = i
 		if !sc.Shard && n > 1 {
@@ -158,7 +186,16 @@ func workerMain(property string, args []string, register func(r *Registry)) int 
 				continue
 			}
 		}
-		st := e.explore(sc)
+		if doneSc[sc.Name] {
+			continue
+		}
+		e.res = &workerResult{OutcomeSet: map[string][]uint64{}, NTSet: map[string][]uint64{}}
+		var st *ScenarioStats
+		if e.poison["SCENARIO:"+sc.Name] {
+			st = &ScenarioStats{Name: sc.Name, Incomplete: "crashes", Sharded: sc.Shard, Tags: map[string]int64{}}
+		} else {
+			st = e.explore(sc)
+		}
 		e.res.Stats = append(e.res.Stats, st)
 		for h := range st.Outcomes {
 			e.res.OutcomeSet[sc.Name] = append(e.res.OutcomeSet[sc.Name], h)
@@ -166,13 +203,18 @@ func workerMain(property string, args []string, register func(r *Registry)) int 
 		for h := range st.NTOutcomes {
 			e.res.NTSet[sc.Name] = append(e.res.NTSet[sc.Name], h)
 		}
-		if e.res.Internal != "" || e.res.Capped != "" {
+		final.Internal, final.Capped = e.res.Internal, e.res.Capped
+		e.res.Internal, e.res.Capped = "", ""
+		if final.Capped == "" || st.Complete {
+			if !emit(e.res) {
+				return exitInternal
+			}
+		}
+		if final.Internal != "" || final.Capped != "" {
 			break
 		}
 	}
-	b, _ := json.Marshal(e.res)
-	if err := os.WriteFile(out, b, 0o644); err != nil {
-		fmt.Fprintln(os.Stderr, "worker: cannot write result:", err)
+	if !emit(final) {
 		return exitInternal
 	}
 	return 0
@@ -344,10 +386,40 @@ func parentMain(property, tier string, register func(r *Registry)) int {
 			defer wg.Done()
 			poison := filepath.Join(scratch, fmt.Sprintf("poison%d", k))
 			var poisoned []string
-			for attempt := 0; attempt < 6; attempt++ {
-				out := filepath.Join(scratch, fmt.Sprintf("out%d.json", k))
+			out := filepath.Join(scratch, fmt.Sprintf("out%d.json", k))
+			crashesPerSc := map[string]int{}
+			// readParts merges the JSON lines the worker has appended so far
+			readParts := func() (*workerResult, bool) {
+				wr := &workerResult{OutcomeSet: map[string][]uint64{}, NTSet: map[string][]uint64{}}
+				b, err := os.ReadFile(out)
+				if err != nil {
+					return wr, false
+				}
+				ended := false
+				for _, l := range strings.Split(string(b), "\n") {
+					var part workerResult
+					if l == "" || json.Unmarshal([]byte(l), &part) != nil {
+						continue
+					}
+					if part.End {
+						ended = true
+						wr.Internal, wr.Capped = part.Internal, part.Capped
+						continue
+					}
+					wr.Stats = append(wr.Stats, part.Stats...)
+					for n, hs := range part.OutcomeSet {
+						wr.OutcomeSet[n] = append(wr.OutcomeSet[n], hs...)
+					}
+					for n, hs := range part.NTSet {
+						wr.NTSet[n] = append(wr.NTSet[n], hs...)
+					}
+					wr.Violations = append(wr.Violations, part.Violations...)
+					wr.Samples = append(wr.Samples, part.Samples...)
+				}
+				return wr, ended
+			}
+			for attempt := 0; attempt < 12; attempt++ {
 				journal := filepath.Join(scratch, fmt.Sprintf("journal%d", k))
-				os.Remove(out)
 				os.WriteFile(poison, []byte(strings.Join(poisoned, "\n")), 0o644)
 				cmd := exec.Command(self, "--worker", fmt.Sprintf("%d/%d", k, nw), "--tier", tier, "--out", out,
 					"--journal", journal, "--poison", poison, "--deadline", strconv.FormatInt(deadline.Unix(), 10))
@@ -355,12 +427,9 @@ func parentMain(property, tier string, register func(r *Registry)) int {
 				cmd.Stderr = &tailWriter{b: &stderr, max: 6000}
 				cmd.Stdout = os.Stderr
 				err := cmd.Run()
-				if b, rerr := os.ReadFile(out); err == nil && rerr == nil {
-					var wr workerResult
-					if json.Unmarshal(b, &wr) == nil {
-						results[k] = &wr
-						return
-					}
+				if wr, ended := readParts(); err == nil && ended {
+					results[k] = wr
+					return
 				}
 				// the worker died: the journal names the execution that was running
 				jb, _ := os.ReadFile(journal)
@@ -393,9 +462,16 @@ func parentMain(property, tier string, register func(r *Registry)) int {
 				}
 				crashes[k] = append(crashes[k], Violation{Scenario: sc.Name, Key: "crash", Msg: "the process died while running this execution (fatal error, e.g. stack exhaustion by unbounded recursion): " + first + "\n" + tail, Choices: vec})
 				poisoned = append(poisoned, vecKey(sc.Name, vec))
+				crashesPerSc[sc.Name]++
+				if crashesPerSc[sc.Name] >= 2 {
+					// two crashing executions in one scenario: give the scenario up, keep going with the others
+					poisoned = append(poisoned, "SCENARIO:"+sc.Name)
+				}
 			}
 			internalMsg[k] = ""
-			results[k] = &workerResult{Capped: "crashes", OutcomeSet: map[string][]uint64{}, NTSet: map[string][]uint64{}}
+			wr, _ := readParts()
+			wr.Capped = "crashes"
+			results[k] = wr
 		}(k)
 	}
 	wg.Wait()
